@@ -6,6 +6,7 @@ mod common;
 mod c01;
 mod c02;
 mod fspace;
+mod c06;
 mod c07;
 mod c08;
 mod c09;
@@ -102,6 +103,7 @@ fn dispatch(id: &str, ctx: &Ctx, rep: &Report) {
         "C03" => c03::run(ctx, rep),
         "C04" => c04::run(ctx, rep),
         "C05" => c05::run(ctx, rep),
+        "C06" => c06::run(ctx, rep),
         "C07" => c07::run(ctx, rep),
         "C08" => c08::run(ctx, rep),
         "C09" => c09::run(ctx, rep),
@@ -123,6 +125,7 @@ fn dispatch_replay(id: &str, w: &serde_json::Value, rep: &Report) {
         "C03" => c03::replay(w, rep),
         "C04" => c04::replay(w, rep),
         "C05" => c05::replay(w, rep),
+        "C06" => c06::replay(w, rep),
         "C07" => c07::replay(w, rep),
         "C08" => c08::replay(w, rep),
         "C09" => c09::replay(w, rep),
